@@ -842,6 +842,25 @@ theorem C02_bounded_work (w : World) (steps : List Step) (hall : ∀ st ∈ step
     simp only [List.length_cons]
     omega
 
+/-- **Every maximal run of effective loop moves is short and ends complete.**  Start from any
+reachable world (`pre` is an arbitrary history: connections opened, data written, closes, faults);
+let the select loop then make moves that each change something, until none of its moves changes
+anything any more.  That run is at most `worldMu` (of its starting world) long, and the world it
+ends in is `Quiet` — everything delivered, every close passed on (`C02_quiet_complete`). -/
+theorem C02_maximal_run_completes (w0 : World) (h0 : w0.flows = [])
+    (hf : w0.cm.tooFull = false ∧ w0.sm.tooFull = false) (pre steps : List Step)
+    (hall : ∀ st ∈ steps, LoopMove st) (heff : Effective (w0.run pre) steps)
+    (hd : ((w0.run pre).run steps).died = none)
+    (hdc : ((w0.run pre).run steps).step (.deliver .client .ok) = (w0.run pre).run steps)
+    (hds : ((w0.run pre).run steps).step (.deliver .server .ok) = (w0.run pre).run steps)
+    (hcb : ∀ e i, ((w0.run pre).run steps).step (.cb e i fullIo) = (w0.run pre).run steps) :
+    steps.length ≤ worldMu (w0.run pre) ∧ Quiet ((w0.run pre).run steps) := by
+  refine ⟨C02_bounded_work (w0.run pre) steps hall heff, ?_⟩
+  have hrun : (w0.run pre).run steps = w0.run (pre ++ steps) := by
+    simp only [World.run, List.foldl_append]
+  rw [hrun] at hd hdc hds hcb ⊢
+  exact C02_no_stuck_state w0 h0 hf (pre ++ steps) hd hdc hds hcb
+
 /-- The measure never goes up along the loop's own moves, effective or not. -/
 theorem C02_measure_monotone (w : World) (steps : List Step) (hall : ∀ st ∈ steps, LoopMove st) :
     worldMu (w.run steps) ≤ worldMu w := by
